@@ -130,6 +130,76 @@ func c02gAdmit(x *mc.Exec, sig string, bySig map[string]int64, admitted map[stri
 	return true
 }
 
+// c02gFrame frames the bucket with the real compress.CompressAndFrame. The frame is a pure function of the bucket
+// bytes and the same bucket is sent many times (with/without mappings on the aggregator, every delivery), so it is
+// computed once per distinct bucket: lz4.CompressBlockHC clears ~1 MB of tables per call, which was more than half of
+// the CPU time of this test. The request bytes are built from the (immutable) string for every execution.
+var c02gFrames sync.Map // string(bucket bytes) -> c02gFramed
+
+type c02gFramed struct {
+	originalSize uint32
+	compressed   string
+}
+
+func c02gFrame(wire []byte) (uint32, string) {
+	if v, ok := c02gFrames.Load(string(wire)); ok {
+		f := v.(c02gFramed)
+		return f.originalSize, f.compressed
+	}
+	originalSize, compressedData, _ := compress.DeFrame(compress.CompressAndFrame(wire))
+	f := c02gFramed{originalSize, string(compressedData)}
+	c02gFrames.Store(string(wire), f)
+	return f.originalSize, f.compressed
+}
+
+// c02gDelivery: how a bucket reaches an aggregator. An agent sends the bucket of second t to the replica that owns t
+// (t%3 == replicaKey-1); when that replica is marked dead it goes to a spare replica (the "spare" flag set, t%3 !=
+// replicaKey-1), buckets that could not be delivered in time are resent through the historic conveyor (flag "historic",
+// to the owner or to a spare), and old agents send every bucket to every replica. The handler rounds the bucket's second
+// up to the next second its replica owns to choose the aggregatorBucket; a historic bucket whose rounded second has
+// already left the recent window is collected in historicBuckets. None of this may change a row: the key (with the
+// timestamp the agent gave the row, implicit = the bucket's own second) and the aggregates are the same wherever and
+// however the bucket arrives. The family: every bucket x every replica (3) x {recent, historic still inside the recent
+// window, historic older than the window} x spare flag on/off.
+type c02gDelivery struct {
+	replica  int32 // replicaKey of the receiving aggregator, 1..3
+	spare    bool
+	historic bool
+	old      bool // historic only: the second the replica rounds the bucket to is older than its recent window
+}
+
+func (d c02gDelivery) String() string {
+	s := fmt.Sprintf("replica%d", d.replica)
+	if d.historic {
+		s += "/historic"
+		if d.old {
+			s += "-old"
+		}
+	} else {
+		s += "/recent"
+	}
+	if d.spare {
+		s += "/spare"
+	}
+	return s
+}
+
+// c02gDeliveryOwner is the only delivery the check used before: bucket second owned by the receiving replica (for the
+// on-time bucket; the late bucket's second is not), recent conveyor, recent window of exactly that second.
+var c02gDeliveryOwner = []c02gDelivery{{replica: 1}}
+
+func c02gAllDeliveries() []c02gDelivery {
+	var out []c02gDelivery
+	for r := int32(1); r <= 3; r++ {
+		for _, spare := range []bool{false, true} {
+			out = append(out, c02gDelivery{replica: r, spare: spare})
+			out = append(out, c02gDelivery{replica: r, spare: spare, historic: true})
+			out = append(out, c02gDelivery{replica: r, spare: spare, historic: true, old: true})
+		}
+	}
+	return out
+}
+
 // c02gAgentSeam is the second seam (agent bytes rebuilt by data_model.VerifC02Receive, no handler).
 func c02gAgentSeam(rep *mc.Report) {
 	maxLen := 2
@@ -274,7 +344,7 @@ func c02gAgentSeam(rep *mc.Report) {
 
 func TestVerifC02Aggregator(t *testing.T) {
 	rep := mc.NewReport("C02")
-	rep.Rule = data_model.VerifC02Rule
+	rep.Rule = data_model.VerifC02Rule + ". Seam 3 (aggregator: the agent bytes through the real handleSendSourceBucket3, mappings known/unknown) additionally x 18 deliveries: receiving replica 1..3 (owner of the bucket's second or not) x {recent, historic inside the recent window, historic older than the window} x spare flag"
 	c02gAgentSeam(rep) // seam 2 runs in this binary too (one test binary less to build)
 	shard, shards := mc.ShardFromEnv()
 	msEmpty, msFull := c02gMappings(t, false), c02gMappings(t, true)
@@ -305,13 +375,18 @@ func TestVerifC02Aggregator(t *testing.T) {
 	if mc.Thorough() {
 		sendVariants = append(sendVariants, [2]int{1, 1}, [2]int{2, 1})
 	}
-	run := func(part string, set string, hosts []int, maxLen int, workers int) {
+	var deliveriesSeen sync.Map // delivery + where the handler put the rows
+	run := func(part string, set string, hosts []int, maxLen int, workers int, deliveries []c02gDelivery) {
 		letters := data_model.VerifC02Alphabet(set, hosts, []int{0, 1, 2})
 		body := func(x *mc.Exec) mc.Verdict {
 			pct := x.ChooseFree(2, "percentiles") == 1
 			sv := sendVariants[x.ChooseFree(len(sendVariants), "variant x late")]
 			variant, late := sv[0], sv[1] == 1
 			mapped := x.ChooseFree(2, "aggregator knows string mappings") == 1
+			dlv := deliveries[0]
+			if len(deliveries) > 1 {
+				dlv = deliveries[x.ChooseFree(len(deliveries), "delivery")]
+			}
 			var evs []data_model.VerifC02Event
 			for i := 0; i < maxLen; i++ {
 				n := len(letters) + 1
@@ -328,6 +403,9 @@ func TestVerifC02Aggregator(t *testing.T) {
 				evs = append(evs, letters[k])
 			}
 			desc := fmt.Sprintf("events=%s percentiles=%v variant=%d late=%v mappings=%v", data_model.VerifC02Describe(evs), pct, variant, late, mapped)
+			if len(deliveries) > 1 {
+				desc += " delivery=" + dlv.String()
+			}
 			fail := func(sig, msg string) mc.Verdict {
 				if !c02gAdmit(x, sig, bySig, admitted, &mu) {
 					return mc.Verdict{}
@@ -346,30 +424,42 @@ func TestVerifC02Aggregator(t *testing.T) {
 				return fail("C02:wire-unreadable", err.Error())
 			}
 			// the request as ShardReplica.sendSourceBucket3Compressed builds it
-			originalSize, compressedData, _ := compress.DeFrame(compress.CompressAndFrame(sent.Wire))
+			originalSize, compressedData := c02gFrame(sent.Wire)
 			args := tlstatshouse.SendSourceBucket3{
 				Time:           sent.BucketTime,
 				BuildCommit:    "0123456789abcdef",
 				BuildCommitTs:  format.LeastAllowedAgentCommitTs + 1,
 				OriginalSize:   originalSize,
-				CompressedData: string(compressedData),
+				CompressedData: compressedData,
 			}
 			args.Header.HostName = c02gAgentHost
 			args.Header.ComponentTag = format.TagValueIDComponentAgent
 			args.Header.ShardReplica = 0
 			args.Header.ShardReplicaTotal = 3
+			args.SetSpare(dlv.spare)
+			args.SetHistoric(dlv.historic)
 			// a fresh aggregator: what handleSendSourceBucket touches
-			rounded := sent.BucketTime
-			for rounded%3 != 0 { // replica key 1
+			rounded := sent.BucketTime // the second the receiving replica collects this bucket in
+			for rounded%3 != uint32(dlv.replica-1) {
 				rounded++
 			}
+			var recent []*aggregatorBucket
+			switch {
+			case len(deliveries) == 1: // as before: a window of exactly that second
+				recent = []*aggregatorBucket{newAggregatorBucket(rounded)}
+			case dlv.old: // the window has moved past the second
+				recent = []*aggregatorBucket{newAggregatorBucket(rounded + 1), newAggregatorBucket(rounded + 2)}
+			default: // consecutive seconds around it (as goTicker keeps them)
+				recent = []*aggregatorBucket{newAggregatorBucket(rounded - 1), newAggregatorBucket(rounded), newAggregatorBucket(rounded + 1)}
+			}
 			a := &Aggregator{
-				recentBuckets:   []*aggregatorBucket{newAggregatorBucket(rounded)},
+				recentBuckets:   recent,
 				historicBuckets: map[uint32]*aggregatorBucket{},
+				historicHosts:   [2][2]map[data_model.TagUnion]int64{{map[data_model.TagUnion]int64{}, map[data_model.TagUnion]int64{}}, {map[data_model.TagUnion]int64{}, map[data_model.TagUnion]int64{}}},
 				bucketsToSend:   make(chan *aggregatorBucket, 1),
 				withoutCluster:  true,
 				shardKey:        1,
-				replicaKey:      1,
+				replicaKey:      dlv.replica,
 				sh2:             getSh2(x.Worker),
 				mappingsStorage: msEmpty,
 			}
@@ -395,15 +485,28 @@ func TestVerifC02Aggregator(t *testing.T) {
 			if len(resp.Warning) != 0 || resp.IsSetDiscard() {
 				return fail("C02:bucket-refused", fmt.Sprintf("the aggregator refused the bucket: warning %q discard %v", resp.Warning, resp.IsSetDiscard()))
 			}
-			// rows of our metric the handler stored
-			aggBucket := a.recentBuckets[0]
+			// rows of our metric the handler stored, wherever it put them (the property is about the rows, not about
+			// the aggregatorBucket they wait in)
 			var got []*data_model.MultiItem
-			for si := range aggBucket.shards {
-				for _, mi := range aggBucket.shards[si].MultiItems {
-					if mi.Key.Metric == data_model.VerifC02Metric {
-						got = append(got, mi)
+			where := ""
+			collect := func(name string, aggBucket *aggregatorBucket) {
+				for si := range aggBucket.shards {
+					for _, mi := range aggBucket.shards[si].MultiItems {
+						if mi.Key.Metric == data_model.VerifC02Metric {
+							got = append(got, mi)
+							where = name
+						}
 					}
 				}
+			}
+			for i, b := range a.recentBuckets {
+				collect(fmt.Sprintf("recent[%d]", i), b)
+			}
+			for _, b := range a.historicBuckets {
+				collect("historicBuckets", b)
+			}
+			if len(deliveries) > 1 && len(got) != 0 {
+				deliveriesSeen.Store(fmt.Sprintf("%s late=%v -> %s", dlv, late, where), true)
 			}
 			sender := data_model.VerifC02MapTag(data_model.TagUnion{S: c02gAgentHost}, mapping)
 			wantSF := [...]float64{1, 2, 3.5}[variant]
@@ -442,9 +545,14 @@ func TestVerifC02Aggregator(t *testing.T) {
 				aggRow := data_model.VerifC02SnapRow(mi)
 				agentRow := data_model.VerifC02MapRow(row.Row, mapping)
 				stKey := data_model.VerifC02RowString(agentRow) + fmt.Sprint(row.SF, pct, late, mapped)
+				outKey := data_model.VerifC02RowString(aggRow)
+				if len(deliveries) > 1 { // a state is also the way the bucket arrives, an outcome also where and with which timestamp the row is kept
+					stKey += dlv.String()
+					outKey += fmt.Sprint(where, mi.Key.Timestamp)
+				}
 				mu.Lock()
 				states[mc.Hash(stKey)] = struct{}{}
-				outcomes[mc.Hash(data_model.VerifC02RowString(aggRow))] = struct{}{}
+				outcomes[mc.Hash(outKey)] = struct{}{}
 				if data_model.VerifC02Collides(evs) || row.SF != 1 {
 					nontrivial[mc.Hash(stKey)] = struct{}{}
 				}
@@ -465,13 +573,19 @@ func TestVerifC02Aggregator(t *testing.T) {
 		rep.MergeExplore(part, stats)
 	}
 	if shard == 0 {
-		run("aggregator_shortest_len1_serial", "small", []int{0, 1, 2}, 1, 1)
+		run("aggregator_shortest_len1_serial", "small", []int{0, 1, 2}, 1, 1, c02gDeliveryOwner)
 	}
 	if mc.Thorough() {
-		run("aggregator_len2_6kinds_3hosts", "small", []int{0, 1, 2}, 2, 0)
+		run("aggregator_len2_6kinds_3hosts", "small", []int{0, 1, 2}, 2, 0, c02gDeliveryOwner)
+		run("aggregator_delivery_len2_4kinds_2hosts", "tiny", []int{0, 2}, 2, 0, c02gAllDeliveries())
 	} else {
-		run("aggregator_len2_4kinds_2hosts", "tiny", []int{0, 2}, 2, 0)
+		run("aggregator_len2_4kinds_2hosts", "tiny", []int{0, 2}, 2, 0, c02gDeliveryOwner)
+		run("aggregator_delivery_len1_6kinds_3hosts", "small", []int{0, 1, 2}, 1, 0, c02gAllDeliveries())
 	}
+	nDeliveries := 0
+	deliveriesSeen.Range(func(k, v any) bool { nDeliveries++; return true })
+	rep.Bounds["aggregator_seam_deliveries"] = len(c02gAllDeliveries())
+	rep.Bounds["aggregator_seam_delivery_x_late_outcomes_with_rows"] = nDeliveries
 	for h := range states {
 		rep.State(fmt.Sprintf("g%x", h))
 	}
